@@ -116,6 +116,12 @@ func (r *FnRun) call(st *State, b *ssa.BasicBlock, idx int, x *ssa.Call) (Val, b
 		defer func() { r.pendingFree = nil }()
 		return r.applyContract(st, x, callee, c, args, site)
 	}
+	// a small loop-free helper of the same package without a contract is expanded in
+	// place (so that "extract a helper" refactorings keep their meaning for the proof)
+	if r.autoInlinable(callee) {
+		r.E.Notes["auto-inline: "+shortFn(callee)+" (same package, loop-free, no contract) expanded in "+r.FnName] = true
+		return r.inlineCall(st, b, idx, x, callee, args, site)
+	}
 	// unknown callee: sound over-approximation — everything may change, result arbitrary
 	r.E.Notes["havoc: call of "+name+" without contract (heap and result havocked)"] = true
 	r.havocAll(st)
@@ -787,4 +793,39 @@ func (r *FnRun) checkEffect(st *State, ins ssa.Instruction, cc *ssa.CallCommon) 
 	} else {
 		r.addGoal(st, "effects.allowed["+pkg+"."+name+"]", r.posOf(ins), True, nil)
 	}
+}
+
+
+// autoInlinable: callee has a body, lives in the package of the function under
+// contract, is loop-free and small, and is not already being expanded.
+func (r *FnRun) autoInlinable(callee *ssa.Function) bool {
+	root := r
+	for root.parent != nil {
+		root = root.parent
+	}
+	if root.Fn == nil || callee.Pkg == nil || callee.Pkg != root.Fn.Pkg || len(callee.Blocks) == 0 || len(callee.Blocks) > 40 || r.depth >= 3 {
+		return false
+	}
+	if callee.Signature.Recv() != nil && len(callee.FreeVars) > 0 {
+		return false
+	}
+	for p := r; p != nil; p = p.parent {
+		if p.Fn == callee {
+			return false // recursion
+		}
+	}
+	for _, b := range callee.Blocks {
+		for _, s := range b.Succs {
+			if s.Dominates(b) {
+				return false // loop
+			}
+		}
+		for _, ins := range b.Instrs {
+			switch ins.(type) {
+			case *ssa.Go, *ssa.Defer, *ssa.Select, *ssa.RunDefers:
+				return false
+			}
+		}
+	}
+	return true
 }
